@@ -130,7 +130,27 @@ func (c *Compiled) Solve(in, out []*big.Int, opts ...solver.Option) error {
 	if err != nil {
 		return fmt.Errorf("witness: %w", err)
 	}
-	return c.CS.IsSolved(w, append(CommitOverrides(c.CS), opts...)...)
+	return c.CS.IsSolved(w, append(SolveOpts(c.CS), opts...)...)
+}
+
+// SolveOpts: commitment-hint replacements plus panic-safe wrappers of the repository's hint
+// functions. gnark runs hints in solver goroutines, where a panic (MulAddHint / InverseHint
+// panic on operands outside the field) would kill the whole process; wrapped, it becomes a
+// solver error, i.e. "the honest prover cannot produce a witness".
+func SolveOpts(cs constraint.ConstraintSystem) []solver.Option {
+	opts := CommitOverrides(cs)
+	for _, h := range []solver.Hint{gl.MulAddHint, gl.ReduceHint, gl.InverseHint, gl.SplitLimbsHint} {
+		h := h
+		opts = append(opts, solver.OverrideHint(solver.GetHintID(h), func(m *big.Int, in []*big.Int, out []*big.Int) (err error) {
+			defer func() {
+				if r := recover(); r != nil {
+					err = fmt.Errorf("hint panicked: %v", r)
+				}
+			}()
+			return h(m, in, out)
+		}))
+	}
+	return opts
 }
 
 // CommitOverrides replaces the placeholder commitment hints of a compiled system by a
